@@ -292,7 +292,7 @@ static std::string gzip_bytes(const std::string& in)
 struct Feat
 {
    const char* reader = "lp";
-   bool lineOver8191 = false, lineOver16383 = false, lineOver255 = false, lineOver1023 = false, hasNul = false, empty = false,
+   bool lineOver8191 = false, lineOver16383 = false, lineOver255 = false, lineOver499 = false, hasNul = false, empty = false,
         noEndata = true, hasReal = false, hasLimit = false, zeroDen = false, hugeExp = false;
 };
 static Feat features(const Case& c, const std::string& d)
@@ -311,7 +311,7 @@ static Feat features(const Case& c, const std::string& d)
       if(len > 8191) f.lineOver8191 = true;
       if(len > 16383) f.lineOver16383 = true;
       if(len > 255) f.lineOver255 = true;
-      if(len > 1023) f.lineOver1023 = true;
+      if(len > 499) f.lineOver499 = true;
       // first blank-separated word of the line as a C string
       std::string w;
       for(size_t i = a; i < b && d[i] != '\0' && d[i] != ' ' && d[i] != '\t' && d[i] != '\r'; ++i) w += d[i];
@@ -357,6 +357,7 @@ static std::string suffix_of(const Case& c, const Feat& f, int stage)
    if(c.gztrunc >= 0 || c.gzsub.first >= 0) s += "/gzfault";
    if(!strcmp(f.reader, "lp") && f.lineOver8191) s += "+line>8191";
    if((!strcmp(f.reader, "mps") || !strcmp(f.reader, "bas")) && f.noEndata) s += "+eof-before-ENDATA";
+   if(f.empty) s += "+empty";
    if(c.mode && f.zeroDen && (c.fmt == LP || c.fmt == MPS)) s += "+zero-denominator";
    if(f.hugeExp && c.fmt != BAS) s += "+exponent>308";
    s += std::string("/stage=") + STAGE[stage < 9 ? stage : 0];
@@ -785,7 +786,7 @@ static void case_body(const Case& c, const Feat& ft, const std::string& cs, Ctx&
    if(ft.lineOver8191) ctx.count("input.line_over_8191_bytes");
    if(ft.lineOver16383) ctx.count("input.line_over_16383_bytes");
    if(ft.lineOver255 && (!strcmp(ft.reader, "mps") || !strcmp(ft.reader, "bas"))) ctx.count("input.mps_or_bas_line_over_255_bytes");
-   if(ft.lineOver1023 && c.fmt == SET) ctx.count("input.settings_line_over_1023_bytes");
+   if(ft.lineOver499 && c.fmt == SET) ctx.count("input.settings_line_over_499_bytes");
    if(ft.hasNul) ctx.count("input.has_nul_byte");
    if(ft.empty) ctx.count("input.empty");
    if(c.gz) ctx.count("input.gzip_container");
@@ -1081,7 +1082,7 @@ static void init_alphabets()
    T_SETFRAG =
    {
       T("int"), T("bool"), T("real"), T("uint"), T(":"), T("="), T("iterlimit"), T("lifting"), T("feastol"), T("random_seed"), T("5"), T("true"), T("1e-6"),
-      T("#"), T("\n"), T(std::string(1, '\0')), T(" "), T("\t"), T(std::string(1022, 'a')), T(std::string(1023, 'a')), T(std::string(2000, 'a'))
+      T("#"), T("\n"), T(std::string(1, '\0')), T(" "), T("\t"), T(std::string(498, 'a')), T(std::string(499, 'a')), T(std::string(2000, 'a'))
    };
    // LP contexts: split points of the valid file
    const auto& L = V_LP_LINES;
@@ -1554,7 +1555,7 @@ int main(int argc, char** argv)
          names.push_back("nosuchparam");
          names.push_back(std::string(300, 'p'));
       }
-      static std::vector<std::string> vals = {"true", "false", "1", "-1", "0", "2147483648", "-0.0", "1e", "1e999999999", "1/0", "abc", std::string(400, '7'), std::string(1100, '7'), ""};
+      static std::vector<std::string> vals = {"true", "false", "1", "-1", "0", "2147483648", "-0.0", "1e", "1e999999999", "1/0", "abc", std::string(400, '7'), std::string(600, '7'), ""};
       Family f;
       f.name = "settings: 7 types x " + std::to_string(names.size()) + " names x 14 values x 2 modes";
       f.N = types.size() * names.size() * vals.size() * 2;
@@ -1584,7 +1585,7 @@ int main(int argc, char** argv)
       };
       fams.push_back(g);
       SET_LINES = {"int:iterlimit = 5\n", "int : iterlimit = 7\n", "int\n", "int:\n", "int:iterlimit\n", "int:iterlimit =\n", "bool:lifting = true\n", "bool:lifting = maybe\n", "bool\n",
-                   "real:feastol = 1e-3\n", "real\n", "uint:random_seed = 3\n", "uint\n", "# c\n", "\n", std::string(1023, 'a') + "\n", std::string(1024, 'a') + "\n", "int:iterlimit = 9", "int:displayfreq = 10 x\n",
+                   "real:feastol = 1e-3\n", "real\n", "uint:random_seed = 3\n", "uint\n", "# c\n", "\n", std::string(499, 'a') + "\n", std::string(500, 'a') + "\n", "int:iterlimit = 9", "int:displayfreq = 10 x\n",
                    "int:verbosity = 5\n", "int:readmode = 1\n", "int:solvemode = 2\n", "int:syncmode = 1\n", std::string(1, '\0') + "\n"
                   };
       uint64_t NLs = SET_LINES.size();
@@ -1719,6 +1720,41 @@ int main(int argc, char** argv)
             }
       Family f;
       f.name = "LP names / labels / numbers of 1022..16384 characters at 12 positions x 2 modes";
+      f.N = list.size();
+      f.gen = [](uint64_t idx) { return list[idx]; };
+      fams.push_back(f);
+   }
+   {
+      // duplicate and colliding names (no expectation about acceptance; the common oracle checks that names match dimensions)
+      static std::vector<Case> list;
+      list.clear();
+      auto rep1 = [](std::string t, const std::string & a, const std::string & b) { size_t p = t.find(a); if(p != std::string::npos) t.replace(p, a.size(), b); return t; };
+      std::vector<std::pair<int, std::string>> texts =
+      {
+         {LP, rep1(V_LP, " c2:", " c1:")},                       // two rows with the same label
+         {LP, rep1(rep1(V_LP, " c1:", " C2:"), " c2:", " ")},     // user label C2 collides with the default name of the unnamed second row
+         {LP, rep1(rep1(V_LP, " c2:", " "), " c3:", " ")},        // unnamed rows only after a named one
+         {LP, rep1(V_LP, " c3: x + z", " c3: x + x")},            // the same column twice in a row
+         {LP, rep1(V_LP, " c1: x + y", " x: x + y")},             // row label equal to a column name
+         {LP, rep1(V_LP, " y\n", " y\n y\n nosuch\n")},            // repeated and unknown names in the integer section
+         {LP, rep1(V_LP, " z free\n", " z free\n z free\n nosuch free\n")},
+         {MPS, rep1(V_MPS, mps_line("L", "c2"), mps_line("L", "c1"))},                                         // duplicate row name
+         {MPS, rep1(V_MPS, mps_line("", "y", "c2", "-1"), mps_line("", "x", "c2", "-1"))},                     // column x appears again after y
+         {MPS, rep1(V_MPS, mps_line("", "x", "c2", "1", "c3", "1"), mps_line("", "x", "c1", "1", "c1", "1"))},  // same row twice in a column
+         {MPS, rep1(V_MPS, mps_line("N", "obj"), mps_line("N", "obj") + mps_line("N", "obj2"))},               // two objective rows
+         {MPS, rep1(V_MPS, mps_line("E", "c3"), mps_line("E", "c3") + mps_line("G", "obj"))},                  // constraint named like the objective
+         {MPS, rep1(V_MPS, mps_line("UP", "bnd", "x", "4"), mps_line("UP", "bnd", "x", "4") + mps_line("UP", "bnd", "x", "-1") + mps_line("LO", "bnd", "nosuch", "1"))}
+      };
+      for(int mode = 0; mode < 2; ++mode)
+         for(int names = 0; names < 2; ++names)
+            for(auto& t : texts)
+            {
+               Case c;
+               c.fmt = t.first; c.mode = mode; c.names = names; c.cpu = TOKCPU; c.data = t.second;
+               list.push_back(c);
+            }
+      Family f;
+      f.name = "duplicate and colliding names in LP and MPS files x {name sets, none} x 2 modes";
       f.N = list.size();
       f.gen = [](uint64_t idx) { return list[idx]; };
       fams.push_back(f);
@@ -1867,13 +1903,16 @@ int main(int argc, char** argv)
    }
 
    std::string only = args.get("only");
+   uint64_t stride = strtoull(args.get("stride", "1").c_str(), 0, 10);
+   if(stride > 1) { rep.exhaustive = false; rep.notes.push_back("development run with --stride: not exhaustive"); }
    for(auto& f : fams)
    {
       if(!only.empty() && f.name.find(only) == std::string::npos) continue;
       Family* fp = &f;
       std::string outdir = args.outdir;
-      rep.phase(f.name, f.N, [fp, outdir](uint64_t idx, int, Ctx & c) -> uint64_t
+      rep.phase(f.name, f.N, [fp, outdir, stride](uint64_t idx, int, Ctx & c) -> uint64_t
       {
+         if(stride > 1 && idx % stride != 0) return 0;     // development aid only (never passed by ./check): look at every stride-th case
          Case cs = fp->gen(idx);
          if(cs.skip) { c.count("skipped_identity_or_thinned"); return 0; }
          return exec_case(cs, c, outdir);
